@@ -108,6 +108,29 @@ type world struct {
 	all     []*hEnt
 	events  []string // C13 monitor events during the current operation: "key|text"
 	attachN int
+	// gate: the next file-system call after arming blocks (after it has been
+	// logged) until gateOpen is closed; entered tells the driver it is inside
+	gateArmed bool
+	gateHit   bool
+	entered   chan struct{}
+	gateOpen  chan struct{}
+}
+
+// section locks the world for the duration of one file-system call; the
+// returned function unlocks it and, if this call was chosen by the gate,
+// keeps the caller inside the call until the gate opens.
+func (w *world) section() func() {
+	w.mu.Lock()
+	return func() {
+		hit := w.gateHit
+		w.gateHit = false
+		ent, rel := w.entered, w.gateOpen
+		w.mu.Unlock()
+		if hit {
+			ent <- struct{}{}
+			<-rel
+		}
+	}
 }
 
 func (w *world) take() tok {
@@ -130,6 +153,9 @@ func (w *world) newHandle(dir bool) *hEnt {
 // use: a call arrived at handle h (or at a File / ReadNext obtained from it).
 func (w *world) use(h *hEnt, name string, arg int) (tok, *callRec) {
 	t := w.take()
+	if w.gateArmed {
+		w.gateArmed, w.gateHit = false, true
+	}
 	if h != nil && h.released > 0 {
 		w.events = append(w.events, fmt.Sprintf("session.use-after-release:%s|%s called on entry %d after its release (%s)", name, name, h.id, strings.Join(h.causes, ",")))
 	}
@@ -154,8 +180,7 @@ func (w *world) Auth(ctx context.Context, uname, aname string) (p9p.AuthFile, er
 	return nil, errors.New("no auth")
 }
 func (w *world) Attach(ctx context.Context, uname, aname string, af p9p.AuthFile) (p9p.Dirent, error) {
-	w.mu.Lock()
-	defer w.mu.Unlock()
+	defer w.section()()
 	t, _ := w.use(nil, "attach", -1)
 	if t.fail != 0 {
 		return nil, errFS
@@ -181,8 +206,7 @@ func (h *hEnt) Qid() p9p.Qid {
 }
 
 func (h *hEnt) OpenDir(ctx context.Context) (p9p.ReadNext, error) {
-	h.w.mu.Lock()
-	defer h.w.mu.Unlock()
+	defer h.w.section()()
 	t, _ := h.w.use(h, "opendir", -1)
 	switch {
 	case t.fail == 1:
@@ -191,8 +215,7 @@ func (h *hEnt) OpenDir(ctx context.Context) (p9p.ReadNext, error) {
 		return nil, nil
 	}
 	return func(ctx context.Context) ([]p9p.Dir, error) {
-		h.w.mu.Lock()
-		defer h.w.mu.Unlock()
+		defer h.w.section()()
 		t, _ := h.w.use(h, "next", -1)
 		if t.fail != 0 {
 			return nil, errFS
@@ -202,8 +225,7 @@ func (h *hEnt) OpenDir(ctx context.Context) (p9p.ReadNext, error) {
 }
 
 func (h *hEnt) Walk(ctx context.Context, names ...string) ([]p9p.Qid, p9p.Dirent, error) {
-	h.w.mu.Lock()
-	defer h.w.mu.Unlock()
+	defer h.w.section()()
 	t, _ := h.w.use(h, "walk", len(names))
 	if t.fail == 1 {
 		return nil, nil, errFS
@@ -223,8 +245,7 @@ func (h *hEnt) Walk(ctx context.Context, names ...string) ([]p9p.Qid, p9p.Dirent
 }
 
 func (h *hEnt) Create(ctx context.Context, name string, perm uint32, mode p9p.Flag) (p9p.Dirent, p9p.File, error) {
-	h.w.mu.Lock()
-	defer h.w.mu.Unlock()
+	defer h.w.section()()
 	t, _ := h.w.use(h, "create", -1)
 	switch t.fail {
 	case 1:
@@ -240,8 +261,7 @@ func (h *hEnt) Create(ctx context.Context, name string, perm uint32, mode p9p.Fl
 }
 
 func (h *hEnt) Open(ctx context.Context, mode p9p.Flag) (p9p.File, error) {
-	h.w.mu.Lock()
-	defer h.w.mu.Unlock()
+	defer h.w.section()()
 	t, _ := h.w.use(h, "open", int(mode))
 	switch {
 	case t.fail == 1:
@@ -253,8 +273,7 @@ func (h *hEnt) Open(ctx context.Context, mode p9p.Flag) (p9p.File, error) {
 }
 
 func (h *hEnt) simple(name string) error {
-	h.w.mu.Lock()
-	defer h.w.mu.Unlock()
+	defer h.w.section()()
 	t, _ := h.w.use(h, name, -1)
 	if name == "clunk" || name == "remove" {
 		h.w.release(h, name)
@@ -274,8 +293,7 @@ func (h *hEnt) Stat(ctx context.Context) (p9p.Dir, error) {
 type hFile struct{ h *hEnt }
 
 func (f *hFile) rw(name string) (int, error) {
-	f.h.w.mu.Lock()
-	defer f.h.w.mu.Unlock()
+	defer f.h.w.section()()
 	t, _ := f.h.w.use(f.h, name, -1)
 	if t.fail != 0 {
 		return 0, errFS
@@ -416,6 +434,8 @@ type seqRun struct {
 	branches []string
 	hung     bool
 	lockedSeen map[uint32]bool
+	inflight   string // kind of the operation that was in flight when Stop was called ("" = ordinary sequence)
+	modelled   bool   // the model predicts this in-flight case
 	diverged bool // the reference table no longer describes the session (after the first C08 failure)
 }
 
@@ -664,47 +684,7 @@ func describe(b *rbind) string {
 
 // ---------------------------------------------------------------- running one sequence
 
-func (r *seqRun) step(o *opT) {
-	w := r.w
-	w.mu.Lock()
-	w.toks, w.cur, w.calls, w.handed, w.events = o.toks, 0, nil, nil, nil
-	w.mu.Unlock()
-	r.ops = append(r.ops, o)
-	done := make(chan outcome, 1)
-	go func() {
-		defer func() {
-			if e := recover(); e != nil {
-				done <- outcome{panicked: fmt.Sprint(e)}
-			}
-		}()
-		done <- invoke(context.Background(), r.sess, o)
-	}()
-	var out outcome
-	select {
-	case out = <-done:
-	case <-time.After(time.Duration(*hangMs) * time.Millisecond):
-		r.hung = true
-	}
-	w.mu.Lock()
-	defer w.mu.Unlock()
-	table, _ := p9p.VerifFidTable(r.sess)
-	sort.Slice(table, func(i, j int) bool { return table[i].Fid < table[j].Fid })
-	// observation
-	var res sx.S
-	switch {
-	case r.hung:
-		res = sx.Sym("hang")
-		o.result = "hang"
-	case out.panicked != "":
-		res = sx.Sym("panic")
-		o.result = "panic"
-	case out.err != nil:
-		o.result = "err:" + classify(out.err)
-		res = sx.L(sx.Sym("err"), sx.Sym(classify(out.err)))
-	default:
-		o.result = "ok"
-		res = sx.L(sx.Sym("ok"), sx.I(int64(out.n)))
-	}
+func rowsSx(table []p9p.VerifFid) sx.S {
 	rows := make([]sx.S, len(table))
 	for i, e := range table {
 		if e.Locked {
@@ -713,8 +693,12 @@ func (r *seqRun) step(o *opT) {
 			rows[i] = sx.L(sx.U(uint64(e.Fid)), sx.Bool(e.Bound), sx.Bool(e.Open), sx.I(int64(e.Mode)), sx.Bool(false))
 		}
 	}
-	calls := append([]callRec{}, w.calls...)
-	if o.kind == "stop" {
+	return sx.List(rows)
+}
+
+func callsSx(calls []callRec, sorted bool) sx.S {
+	calls = append([]callRec{}, calls...)
+	if sorted {
 		sort.SliceStable(calls, func(i, j int) bool { return calls[i].id < calls[j].id })
 	}
 	cl := make([]sx.S, len(calls))
@@ -728,7 +712,73 @@ func (r *seqRun) step(o *opT) {
 			cl[i] = sx.L(sx.Sym(c.name), sx.I(int64(c.id)))
 		}
 	}
-	r.obs = append(r.obs, sx.L(res, sx.List(rows), sx.List(cl)))
+	return sx.List(cl)
+}
+
+func (r *seqRun) table() []p9p.VerifFid {
+	table, _ := p9p.VerifFidTable(r.sess)
+	sort.Slice(table, func(i, j int) bool { return table[i].Fid < table[j].Fid })
+	return table
+}
+
+func resSx(o *opT, out outcome, hung bool) sx.S {
+	switch {
+	case hung:
+		o.result = "hang"
+		return sx.Sym("hang")
+	case out.panicked != "":
+		o.result = "panic"
+		return sx.Sym("panic")
+	case out.err != nil:
+		o.result = "err:" + classify(out.err)
+		return sx.L(sx.Sym("err"), sx.Sym(classify(out.err)))
+	}
+	o.result = "ok"
+	return sx.L(sx.Sym("ok"), sx.I(int64(out.n)))
+}
+
+// launch starts operation o in its own goroutine (a hang or a panic is an observation).
+func (r *seqRun) launch(o *opT, gated bool) chan outcome {
+	w := r.w
+	w.mu.Lock()
+	w.toks, w.cur, w.calls, w.handed, w.events = o.toks, 0, nil, nil, nil
+	w.gateArmed, w.gateHit = gated, false
+	if gated {
+		w.entered, w.gateOpen = make(chan struct{}, 1), make(chan struct{})
+	}
+	w.mu.Unlock()
+	r.ops = append(r.ops, o)
+	done := make(chan outcome, 1)
+	go func() {
+		defer func() {
+			if e := recover(); e != nil {
+				done <- outcome{panicked: fmt.Sprint(e)}
+			}
+		}()
+		done <- invoke(context.Background(), r.sess, o)
+	}()
+	return done
+}
+
+func (r *seqRun) step(o *opT) {
+	done := r.launch(o, false)
+	var out outcome
+	select {
+	case out = <-done:
+	case <-time.After(time.Duration(*hangMs) * time.Millisecond):
+		r.hung = true
+	}
+	r.record(o, out)
+}
+
+// record: observation and direct oracles for an operation that has returned (or hung).
+func (r *seqRun) record(o *opT, out outcome) {
+	w := r.w
+	w.mu.Lock()
+	defer w.mu.Unlock()
+	table := r.table()
+	res := resSx(o, out, r.hung)
+	r.obs = append(r.obs, sx.L(res, rowsSx(table), callsSx(w.calls, o.kind == "stop")))
 	r.branches = append(r.branches, o.kind+":"+o.result)
 
 	// ---- direct oracles
@@ -1019,7 +1069,199 @@ func runFixed(ops []*opT) *seqRun {
 	return r
 }
 
+// ---------------------------------------------------------------- Stop while an operation is in flight
+
+var coreKinds = []string{"stat", "wstat", "read", "write"}
+var extKinds = []string{"open", "walk", "create", "attach", "clunk", "remove"}
+
+// runInflight: some set-up operations, then one operation is started and held
+// inside its first file-system call (so it holds its fid's lock) while Stop is
+// called; then the gate opens.  Once both have returned, every entry that was
+// ever bound must have been released exactly once and nothing may be bound
+// (C13, "stop at any point").  For stat/wstat/read/write - operations that do
+// nothing but unlock after their call - the model predicts Stop's calls and
+// the tables too; for the other kinds the family is oracle-only.
+func runInflight(g *prng.R) *seqRun {
+	w := &world{}
+	r := &seqRun{w: w, sess: p9p.SFileSys(w), ref: map[uint32]*rbind{}, lockedSeen: map[uint32]bool{}}
+	n := g.Range(2, 14)
+	for i := 0; i < n && !r.hung; i++ {
+		o := r.genOp(g)
+		if o.kind == "stop" {
+			continue
+		}
+		r.step(o)
+	}
+	if r.hung {
+		return r
+	}
+	want := coreKinds[g.Intn(len(coreKinds))]
+	if g.Chance(35, 100) {
+		want = extKinds[g.Intn(len(extKinds))]
+	}
+	// an operation of the wanted kind that will reach the file system
+	reaches := func(o *opT) bool {
+		b := r.ref[o.fid]
+		switch o.kind {
+		case "attach":
+			return o.fid2 == NOFID && o.fid != NOFID && b == nil
+		case "stat", "wstat", "clunk", "remove":
+			return b != nil
+		case "open":
+			return b != nil && !b.open
+		case "read":
+			return b != nil && b.open && b.mode&3 != 1
+		case "write":
+			return b != nil && b.open && !b.h.dir && (b.mode&3 == 1 || b.mode&3 == 2)
+		case "create":
+			return b != nil && b.h.dir && o.name == "n"
+		case "walk":
+			return b != nil && validNames(o.names) && (len(o.names) == 0 || b.h.dir) && !(len(o.names) == 0 && o.fid2 == o.fid) &&
+				(o.fid2 == o.fid || (o.fid2 != NOFID && r.ref[o.fid2] == nil))
+		}
+		return false
+	}
+	var o *opT
+	for i := 0; i < 3000; i++ {
+		o = r.genOp(g)
+		if o.kind == want && reaches(o) {
+			break
+		}
+	}
+	if o.kind != want {
+		o = &opT{kind: "stat", fid: r.pickFid(g, true, 100)}
+	}
+	core := o.kind == "stat" || o.kind == "wstat" || o.kind == "read" || o.kind == "write"
+	hang := time.Duration(*hangMs) * time.Millisecond
+	done := r.launch(o, true)
+	var out outcome
+	select {
+	case <-w.entered:
+	case out = <-done:
+		// returned without calling the file system: an ordinary sequence
+		w.mu.Lock()
+		w.gateArmed = false
+		w.mu.Unlock()
+		r.record(o, out)
+		if !r.hung {
+			r.step(&opT{kind: "stop"})
+			r.finish()
+		}
+		return r
+	case <-time.After(hang):
+		r.hung = true
+		r.record(o, out)
+		return r
+	}
+	// o is inside its file-system call and holds its fid's lock
+	r.inflight = o.kind
+	// keys: session.stop.inflight:<what>:<kind> for the operations that only unlock after their
+	// call; session.stop.inflight.ext:<what>:<kind> for those that go on to change the table
+	pfx := "session.stop.inflight:"
+	if !core {
+		pfx = "session.stop.inflight.ext:"
+	}
+	bad := func(what, text string) {
+		r.fail("C13", pfx+what+":"+o.kind, fmt.Sprintf("Stop while %s is inside its first file-system call: %s", o.String(), text))
+	}
+	w.mu.Lock()
+	nOpCalls := len(w.calls)
+	w.mu.Unlock()
+	stopDone := make(chan struct{})
+	go func() {
+		defer close(stopDone)
+		r.sess.Stop(nil)
+	}()
+	stopReturned := false
+	select {
+	case <-stopDone:
+		stopReturned = true
+	case <-time.After(hang): // a Stop that waits for the operation is acceptable
+	}
+	var stopObs sx.S = sx.L(sx.Sym("stop"), sx.Sym("blocked"))
+	if stopReturned {
+		w.mu.Lock()
+		stopObs = sx.L(sx.Sym("stop"), rowsSx(r.table()), callsSx(w.calls[nOpCalls:], true))
+		w.mu.Unlock()
+	}
+	close(w.gateOpen)
+	select {
+	case out = <-done:
+	case <-time.After(hang):
+		r.hung = true
+		bad("hang", "the operation did not return after the gate was opened")
+	}
+	if !r.hung && !stopReturned {
+		select {
+		case <-stopDone:
+		case <-time.After(hang):
+			r.hung = true
+			bad("hang", "Stop did not return after the operation had returned")
+		}
+	}
+	w.mu.Lock()
+	defer w.mu.Unlock()
+	table := r.table()
+	res := resSx(o, out, r.hung)
+	var opCalls []callRec
+	if nOpCalls <= len(w.calls) {
+		opCalls = w.calls[:nOpCalls]
+	}
+	r.branches = append(r.branches, "inflight-"+o.kind+":"+o.result)
+	r.stopped = true
+	if core {
+		r.obs = append(r.obs, stopObs, sx.L(res, rowsSx(table), callsSx(opCalls, false)))
+	}
+	r.modelled = core
+	if r.hung {
+		return r
+	}
+	if out.panicked != "" {
+		bad("panic", "the operation panicked: "+out.panicked)
+		return r
+	}
+	for _, e := range table {
+		if e.Bound {
+			bad("still-bound", fmt.Sprintf("fid %d is still bound after Stop and the operation have returned", e.Fid))
+		}
+		if e.Locked {
+			bad("left-locked", fmt.Sprintf("fid %d is still locked after Stop and the operation have returned", e.Fid))
+		}
+	}
+	for _, ev := range w.events {
+		i := strings.Index(ev, "|")
+		k := ev[:i]
+		switch {
+		case strings.HasPrefix(k, "session.release.double"):
+			bad("double-release", ev[i+1:])
+		case strings.HasPrefix(k, "session.use-after-release"):
+			bad("use-after-release", ev[i+1:])
+		default:
+			bad("other", ev[i+1:])
+		}
+	}
+	for _, h := range w.all {
+		if h.everBound && h.released == 0 {
+			bad("leak", fmt.Sprintf("entry %d was bound to a fid and is never released", h.id))
+		}
+	}
+	return r
+}
+
 func (r *seqRun) caseSexp(upto int) sx.S {
+	if r.inflight != "" && upto >= len(r.ops)-1 {
+		// (inflight (setup ...) op): the last operation is held in its first
+		// file-system call while Stop runs
+		var setup []sx.S
+		for _, o := range r.ops[:len(r.ops)-1] {
+			setup = append(setup, o.sexp())
+		}
+		head := "inflight"
+		if !r.modelled {
+			head = "inflightx"
+		}
+		return sx.L(sx.Sym(head), sx.List(setup), r.ops[len(r.ops)-1].sexp())
+	}
 	l := []sx.S{sx.Sym("seq")}
 	for i, o := range r.ops {
 		if i > upto {
@@ -1040,7 +1282,7 @@ func main() {
 	r.Rule = "random operation sequences (1..40 operations + a final stop) over fids {0,1,2,3,100,NOFID}: attach/walk/open/create/read/write/stat/wstat/clunk/remove/auth/stop, fids biased towards the state in which the operation is meaningful, name lists of 0..4 elements (5% unsafe), every file-system call outcome drawn from per-operation tokens (20% failures: error, nil result, nil File). A sequence is non-trivial when at least three operations succeeded; distinct by canonical case text."
 	rng := prng.New(r.Seed)
 	nseq := r.N(1000, 30000)
-	gens := make([]*prng.R, nseq)
+	gens := make([]*prng.R, nseq+r.N(300, 4000))
 	for i := range gens {
 		gens[i] = rng.Fork()
 	}
@@ -1048,10 +1290,11 @@ func main() {
 	for _, ops := range corpus() {
 		pinned = append(pinned, runFixed(ops))
 	}
-	results := make([]*seqRun, nseq)
+	ninfl := r.N(300, 4000)
+	results := make([]*seqRun, nseq+ninfl)
 	var wg sync.WaitGroup
-	next := make(chan int, nseq)
-	for i := 0; i < nseq; i++ {
+	next := make(chan int, nseq+ninfl)
+	for i := 0; i < nseq+ninfl; i++ {
 		next <- i
 	}
 	close(next)
@@ -1060,7 +1303,11 @@ func main() {
 		go func() {
 			defer wg.Done()
 			for i := range next {
-				results[i] = runSeq(gens[i])
+				if i < nseq {
+					results[i] = runSeq(gens[i])
+				} else {
+					results[i] = runInflight(gens[i])
+				}
 			}
 		}()
 	}
@@ -1080,7 +1327,11 @@ func main() {
 			nhang++
 		}
 		c := s.caseSexp(len(s.ops))
-		r.Case(c, sx.List(s.obs), "seq", okc >= 3)
+		if s.inflight != "" && !s.modelled {
+			r.Case(c, sx.L(sx.Sym("oracle-only")), "seq", okc >= 3)
+		} else {
+			r.Case(c, sx.List(s.obs), "seq", okc >= 3)
+		}
 		for _, b := range s.branches {
 			r.Hist[b]++
 		}
@@ -1096,7 +1347,8 @@ func main() {
 		}
 	}
 	delete(r.Hist, "seq")
-	r.Hist["sequences"] = nseq + len(pinned)
+	r.Hist["sequences"] = nseq + len(pinned) + ninfl
+	r.Extra["stop_with_operation_in_flight_cases"] = ninfl
 	r.Extra["operations"] = nops
 	r.Extra["sequences_ending_in_hang"] = nhang
 	r.Extra["oracle_failures_by_key"] = reported
